@@ -404,7 +404,8 @@ func c04OneListener(c *Check) {
 				continue
 			}
 			_, fld, base, isF := loadedField(vals[mi])
-			good := isF && fld == "module" && (unspill(base) == ssa.Value(lst) || isShared(base, f))
+			_ = fld // the listener's module field, whatever its name: the field of that type
+			good := isF && typeIs(vals[mi].Type(), syslPkg, "Module") && (unspill(base) == ssa.Value(lst) || isShared(base, f))
 			c.Cond(good, "ONE-LISTENER", fnName(f)+"|returns the shared listener's module", p.pos(ret.Pos()),
 				"the module returned is the one every file was merged into", "the module returned on success is not the shared listener's module")
 		}
